@@ -213,7 +213,7 @@ def r09_4(chk):
     tm = chk.repo.module(TREE)
     w = tm.func("TreeNode.to_rich_dict")
     gn = tm.func("TreeNode.get_newick")
-    wc = [c for c in walk_no_nested(w) if isinstance(c, ast.Call) and norm(c.func) == "self.get_newick"]
+    wc = [c for c in walk_no_nested(w) if isinstance(c, ast.Call) and isinstance(c.func, ast.Attribute) and c.func.attr == "get_newick"]
     dm = chk.repo.module("util/deserialise.py")
     r = dm.func("deserialise_tree")
     rc = [c for c in walk_no_nested(r) if isinstance(c, ast.Call) and (call_name(c) or "").endswith("make_tree")]
@@ -453,7 +453,39 @@ def r09_10(chk):
     chk.floor("R09.10", 1, "one replacement")
 
 
+def r09_11(chk):
+    chk.rule("R09.11", "the JSON form keys the per-edge attributes (lengths) by node name and the reader matches them by name, so the tree that is serialised has no unnamed node: TreeNode.to_rich_dict names the unnamed nodes -- of a copy, the receiver is not modified -- before the keying loop; otherwise every unnamed node (bifurcating()/multifurcating() create them) collapses into the one key None, the reader names them edge.N, finds no attributes and their lengths are lost")
+    m = chk.repo.module("core/tree.py")
+    q = "TreeNode.to_rich_dict"
+    fn = m.func(q)
+    keyed = [st for st in walk_no_nested(fn) if isinstance(st, ast.Assign) and isinstance(st.targets[0], ast.Subscript) and isinstance(st.targets[0].slice, ast.Attribute) and st.targets[0].slice.attr == "name"]
+    k = key(m, q, "no unnamed node is keyed")
+    if not keyed:
+        chk.ok("R09.11", k, m.loc(fn), "edge attributes are not keyed by node name", nontrivial=False)
+        chk.floor("R09.11", 0, "")
+        return
+    loops = [lp for lp in walk_no_nested(fn) if isinstance(lp, ast.For) and any(x is keyed[0] for x in ast.walk(lp))]
+    if not loops:
+        raise AnalysisError(f"{q}: keying loop not found")
+    lp = loops[0]
+    # the tree object whose edges are keyed
+    base = lp.iter.func.value if isinstance(lp.iter, ast.Call) and isinstance(lp.iter.func, ast.Attribute) else None
+    names = [c for c in walk_no_nested(fn) if isinstance(c, ast.Call) and isinstance(c.func, ast.Attribute) and c.func.attr == "name_unnamed_nodes"]
+    on_self = [c for c in names if norm(c.func.value) == "self"]
+    same = [c for c in names if base is not None and norm(c.func.value) == norm(base)]
+    if on_self:
+        chk.violation("R09.11", k, m.loc(on_self[0]), "to_rich_dict renames the nodes of the receiver (serialising a tree must not change it)")
+    elif not same:
+        chk.violation("R09.11", k, m.loc(lp), f"`{norm(keyed[0])[:60]}` keys the attributes by node name but nothing names the unnamed nodes of `{norm(base) if base is not None else '?'}` first: make_tree('(a:1,b:2,c:3,d:4,e:5);').bifurcating() has three unnamed nodes of length 0.0; after deserialise_object(t.to_json()) they have no length and the a-e distance is 9.0 instead of 6.0")
+    else:
+        # newick and attributes must come from the same (named) tree
+        nw = [c for c in walk_no_nested(fn) if isinstance(c, ast.Call) and isinstance(c.func, ast.Attribute) and c.func.attr == "get_newick"]
+        chk.decide(bool(nw) and all(norm(c.func.value) == norm(base) for c in nw), "R09.11", k, m.loc(lp), f"unnamed nodes of `{norm(base)}` are named; newick and attributes are taken from it", "the newick text and the attribute keys are taken from different tree objects: the names cannot match")
+    chk.floor("R09.11", 1, "to_rich_dict")
+
+
 def run(chk):
+    r09_11(chk)
     r09_10(chk)
     r09_9(chk)
     r09_8(chk)
